@@ -44,6 +44,8 @@ def explore(ctx, art):
         lines.append("discover %d" % n)
     for n in ([1, 2, 4] if thorough else [1, 3]):
         lines.append("discover %d dup" % n)
+    for n in ([1, 2, 4] if thorough else [2]):
+        lines.append("discover %d failsend" % n)
     impl = common.run_test_harness(ctx, art["test"], "TestC10", lines, timeout=600)
     if impl is None or len(impl) != len(lines):
         return
